@@ -568,7 +568,7 @@ def semantic_solutions(w):
     return out
 
 
-def _run_real_watchdog(w, seconds):
+def _run_real_watchdog(w, seconds, fill=None):
     import signal
     import subprocess
     import tempfile
@@ -576,8 +576,12 @@ def _run_real_watchdog(w, seconds):
     with tempfile.NamedTemporaryFile("w", suffix=".json", delete=False) as f:
         json.dump(w, f)
         path = f.name
-    code = "import sys,json\nsys.path.insert(0,%r)\nimport replay\nw=json.load(open(%r))\nprint('RESULT', json.dumps(replay.run_real(w)))\n" % (os.path.dirname(os.path.abspath(__file__)), path)
-    proc = subprocess.Popen([sys.executable, "-c", code], stdout=subprocess.PIPE, stderr=subprocess.PIPE, text=True, start_new_session=True)
+    code = "import sys,json\nsys.path.insert(0,%r)\nimport replay\nreplay._patch_empty()\nw=json.load(open(%r))\nprint('RESULT', json.dumps(replay.run_real(w)))\n" % (os.path.dirname(os.path.abspath(__file__)), path)
+    env = dict(os.environ)
+    if fill:
+        env["NUSYM_EMPTY_FILL"] = fill
+        env["NUMBA_DISABLE_JIT"] = "1"
+    proc = subprocess.Popen([sys.executable, "-c", code], stdout=subprocess.PIPE, stderr=subprocess.PIPE, text=True, start_new_session=True, env=env)
     try:
         out, err = proc.communicate(timeout=seconds)
     except subprocess.TimeoutExpired:
@@ -782,6 +786,54 @@ def probe_passes(w):
     return found
 
 
+def probe_entailed(w):
+    """interpreted mode only: at every entry of a consistency algorithm, a constraint whose flag is off at the current level
+    must be entailed by the current box (brute force over the box with the pure-Python relations)"""
+    import itertools
+
+    import nucs.propagators.propagators as P
+    import nucs.solvers.consistency_algorithms as CA
+
+    names = {getattr(P, n): n[4:].lower() for n in dir(P) if n.startswith("ALG_")}
+    found = []
+    saved = list(CA.CONSISTENCY_ALG_FCTS)
+
+    def wrap(f):
+        def g(statistics, algorithms, var_bounds, param_bounds, dia, doa, pdi, pdo, pp, triggers, stack, ne, du, st, trig, addrs, dec):
+            top = int(st[0])
+            for p in range(len(algorithms)):
+                if ne[top, p]:
+                    continue
+                name = names.get(int(algorithms[p]))
+                if name in ("no_sub_cycle", "scc", "dummy") or name not in PYREL:
+                    continue
+                vs, ve = int(var_bounds[p, 0]), int(var_bounds[p, 1])
+                idx = [int(i) for i in pdi[vs:ve]]
+                offs = [int(o) for o in pdo[vs:ve]]
+                par = [int(q) for q in pp[int(param_bounds[p, 0]) : int(param_bounds[p, 1])]]
+                ds = sorted(set(idx))
+                rngs = [range(int(stack[top, d, 0]), int(stack[top, d, 1]) + 1) for d in ds]
+                if any(len(r_) > 64 for r_ in rngs):
+                    continue
+                for vals in itertools.product(*rngs):
+                    x = dict(zip(ds, vals))
+                    t = [x[d] + o for d, o in zip(idx, offs)]
+                    if not PYREL[name](t, par):
+                        found.append(dict(level=top, prop_index=p, alg=name, box=[[int(stack[top, d, 0]), int(stack[top, d, 1])] for d in ds], violating=t))
+                        break
+            return f(statistics, algorithms, var_bounds, param_bounds, dia, doa, pdi, pdo, pp, triggers, stack, ne, du, st, trig, addrs, dec)
+
+        return g
+
+    for i, f in enumerate(saved):
+        CA.CONSISTENCY_ALG_FCTS[i] = wrap(f)
+    try:
+        run_real(w)
+    finally:
+        CA.CONSISTENCY_ALG_FCTS[:] = saved
+    return found
+
+
 def ghost_stats(w):
     """interpreted mode only: ghost counters by interposed wrappers, compared with the reported statistics"""
     import nucs.heuristics.heuristics as H
@@ -882,6 +934,16 @@ def replay_solve(r):  # noqa: F811
             return False, "pass-level probes need the interpreted mode"
         found = probe_passes(r)
         return kind in found, f"probe found {sorted(found)}"
+    if kind == "control-flow-depends-on-uninitialised-memory":
+        # np.empty may return any content: two fresh interpreters, memory pre-filled with 0x00 resp. 0xff (interpreted mode)
+        a = _run_real_watchdog(r, 120, fill="00")
+        b = _run_real_watchdog(r, 120, fill="ff")
+        return a != b, f"np.empty filled with 0x00: {str(a)[:300]} ... filled with 0xff: {str(b)[:300]}"
+    if kind == "disabled-constraint-not-entailed":
+        if not os.environ.get("NUMBA_DISABLE_JIT"):
+            return False, "pass-level probes need the interpreted mode"
+        found = probe_entailed(r)
+        return bool(found), f"a consistency pass was entered with a disabled constraint that the current box does not entail: {found[:2]}"
     if kind.startswith("counter-mismatch:"):
         if not os.environ.get("NUMBA_DISABLE_JIT"):
             return False, "ghost counters need the interpreted mode"
@@ -1161,7 +1223,30 @@ def replay_mode_hazard(r):
     return outs["jit"] != outs["interpreted"], f"compiled: {outs['jit'][:300]} | interpreted: {outs['interpreted'][:300]}"
 
 
+def _patch_empty():
+    """np.empty returns unspecified memory: NUSYM_EMPTY_FILL=00|ff makes it return that byte pattern (interpreted mode: the arrays
+    of the solver are allocated by Python code) - an allowed behaviour of np.empty, used to reproduce a dependence on it"""
+    fill = os.environ.get("NUSYM_EMPTY_FILL")
+    if not fill:
+        return
+    import numpy as np
+
+    orig = np.empty
+    byte = int(fill, 16)
+
+    def empty(shape, dtype=float, *a, **kw):
+        arr = orig(shape, dtype, *a, **kw)
+        try:
+            arr.view(np.uint8).fill(byte)
+        except Exception:  # noqa
+            pass
+        return arr
+
+    np.empty = empty
+
+
 def main(argv):
+    _patch_empty()
     _load_ext()
     if argv and argv[0] == "--outcome":
         r = json.load(open(argv[1]))
@@ -1183,6 +1268,8 @@ def main(argv):
     else:
         ok, info = HANDLERS[r.get("harness", "prop")](r)
     mode = "interpreted" if os.environ.get("NUMBA_DISABLE_JIT") else "jit"
+    if os.environ.get("NUSYM_EMPTY_FILL"):
+        mode += "+np.empty=0x" + os.environ["NUSYM_EMPTY_FILL"]
     print(("REPRODUCED" if ok else "NOT-REPRODUCED"), f"[{mode}]", r.get("prop"), r.get("kind"), info)
     return 0 if ok else 3
 
